@@ -2,25 +2,32 @@
 
     [C01_sound]: for every flat record in the fragment F1 (CodeSem.in_f1:
     act_design any subset of the design, listed in design order; its factors
-    simple or WithinTrial, in any design order; every factor outside it (an
-    implied derived factor: it has no variables and no Derivation constraints)
-    a derived factor of act_design factors with any window - WithinTrial,
-    Transition, Window(width, stride, start) with start >= width - 1 so that it
-    never reads before the first trial - exactly one of whose levels accepts
-    every argument tuple; sustain 1, any number of crossings and chunks (partial
-    last chunk, crossing weights, weighted levels), kinds Consistency / Cross /
-    Derivation / AtMostKInARow / AtLeastKInARow / ExactlyKInARow / ExactlyK /
-    Exclude / Pin / Sequential, combinations left out of a crossing by Exclude
-    constraints or by a crossed derived level no compatible arguments satisfy)
+    simple, WithinTrial, or with a complex window - Transition,
+    Window(width, stride, start) with start >= width - 1 - over simple or
+    WithinTrial factors of act_design (the variables of such a factor follow
+    the grid, one block per trial in which it has a level; its Derivation is
+    the complex variant); every factor outside act_design (an implied derived
+    factor: no variables, no Derivation constraints) a derived factor of
+    simple / WithinTrial act_design factors with any such window, exactly one
+    of whose levels accepts every argument tuple; sustain 1; any number of
+    crossings and chunks (partial last chunk, crossing weights, weighted
+    levels), each starting after its preamble, a crossed factor with a
+    complex window having stride 1 and its first level no later than the
+    first crossing trial; kinds Consistency / Cross / Derivation /
+    AtMostKInARow / AtLeastKInARow / ExactlyKInARow / ExactlyK / Exclude (on a
+    factor with a complex window: stride 1) / Pin / Sequential (on factors
+    without a complex window; Sequential without a preamble); combinations
+    left out of a crossing by Exclude constraints or by a crossed derived
+    level no compatible arguments satisfy)
     every model of the formula the samplers hand to the solver
     ([full_cnf] = [combine_cnf_with_requests] of the compiled request) is, on
     the trial variables, the one-hot image of a sequence that is valid for the
     reference semantics [Sem.valid_b (code_sem fb)]; [onehot fb t q] says that
-    q is complete, that the rows of the act_design factors are read off the
-    trial variables of t and that the rows of the implied factors are the ones
-    [SampleGen.decode] adds ([add_implied_levels]: the level whose table
-    accepts the decoded levels in its window, nothing in the trials where the
-    factor does not apply).
+    the rows of the act_design factors are read off the trial variables of t
+    (no level in the trials before a complex window is full), and that the
+    rows of the implied factors are the ones [SampleGen.decode] adds
+    ([add_implied_levels]: the level whose table accepts the decoded levels in
+    its window, nothing in the trials where the factor does not apply).
     [C01_request_exact]: for EVERY backend request (no fragment), the final
     formula has a model extending an assignment of the variables below [b_fresh]
     iff that assignment satisfies the clauses and every cardinality request.
@@ -125,3 +132,16 @@ Example C01_example_implied_transition :
     ((Some 1 :: Some 1 :: Some 0 :: Some 0 :: nil) :: (Some 1 :: Some 0 :: Some 1 :: Some 0 :: nil) ::
      (None :: Some 1 :: Some 1 :: Some 1 :: nil) :: nil)%nat.
 Proof. exact ex_implied_transition_facts. Qed.
+
+(** ... and by a design whose crossing contains a Transition (complex window in
+    act_design, preamble of one trial, complex Derivation) *)
+Example C01_example_transition :
+  in_f1 ex_transition = true /\ (0 < T ex_transition)%nat /\
+  isact ex_transition 1 = true /\ Design.Layout.is_complex ex_transition 1 = true /\
+  Encode.LayoutF1.VN ex_transition = 18%nat /\ Encode.LayoutF1.gvar ex_transition 1 1 0 = 11%nat /\
+  Encode.LayoutF1.gvar ex_transition 4 1 1 = 18%nat /\
+  (exists b, compile ex_transition = COk b /\ b_fresh b = 102%Z) /\
+  length (all_valid (code_sem ex_transition)) = 4%nat /\
+  hd nil (all_valid (code_sem ex_transition)) =
+    ((Some 0 :: Some 1 :: Some 1 :: Some 0 :: Some 0 :: nil) :: (None :: Some 1 :: Some 0 :: Some 1 :: Some 0 :: nil) :: nil)%nat.
+Proof. exact ex_transition_facts. Qed.
